@@ -216,6 +216,32 @@ def renumber(text: str) -> str:
     return _TOKEN.sub(rep, text)
 
 
+def definitely_assigned(cfg: CFG, rd: "ReachingDefs") -> Dict[int, Set[str]]:
+    """Must-analysis: names assigned on *every* path from the entry to each node (at its start)"""
+    live = cfg.live
+    allnames = set(rd.params)
+    for n in live:
+        for d in rd.gen[n.id]:
+            allnames.add(d.name)
+    IN = {n.id: set(allnames) for n in live}
+    OUT = {n.id: set(allnames) for n in live}
+    IN[cfg.entry.id] = set()
+    OUT[cfg.entry.id] = set(rd.params)
+    changed = True
+    while changed:
+        changed = False
+        for n in live:
+            if n is cfg.entry:
+                continue
+            ps = [p for (p, l) in n.pred]
+            inn = set.intersection(*(OUT[p.id] for p in ps)) if ps else set()
+            out = inn | {d.name for d in rd.gen[n.id]}
+            if inn != IN[n.id] or out != OUT[n.id]:
+                IN[n.id], OUT[n.id] = inn, out
+                changed = True
+    return IN
+
+
 # ----------------------------------------------------------------------------- decision tables
 
 
